@@ -174,7 +174,7 @@ class Sym:
 X, K_, C_ = ("var", "x"), ("var", "k"), ("var", "c")
 
 
-def classify_log_method(fn, argnames):
+def classify_log_method(fn, argnames, owner=None):
     """Runs the real method on symbolic arguments; returns (kind, [names of the args used
     as k and c]) or raises if the body has none of the known shapes."""
     syms = {"exp": Sym(K_), "conv": Sym(C_)}
@@ -183,7 +183,7 @@ def classify_log_method(fn, argnames):
         if n not in syms:
             raise ValueError("unknown extra parameter %r" % n)
         args.append(syms[n])
-    r = fn(None, Sym(X), *args)
+    r = fn(owner, Sym(X), *args)
     t = r.t if isinstance(r, Sym) else getattr(r, "item", lambda: r)()
     t = t.t if isinstance(t, Sym) else t
     if t == ("mul", K_, ("log10", ("mul", X, C_))):
@@ -219,7 +219,7 @@ def extract_c05_tables():
             continue
         short = name[len("_convert_"):]
         u, v = split_name(short, symbols)
-        r = fn(None, Aff(1, 0))
+        r = fn(object.__new__(T), Aff(1, 0))
         r = Aff.lift(r)
         temp.append((short, u, v, r.a, r.b))
     out["tempMethods"] = temp
@@ -232,7 +232,8 @@ def extract_c05_tables():
             continue
         sig = inspect.signature(fn)
         params = list(sig.parameters.values())[2:]      # after self, value
-        k = classify_log_method(fn, [p.name for p in params])
+        # `self` is a real (uninitialised) instance, so helper methods the body calls are the real ones
+        k = classify_log_method(fn, [p.name for p in params], object.__new__(L))
         kinds[name] = (k, [p.name for p in params])
         short = name[len("_convert_"):]
         # reachable through the `_convert_<u>_<v>` name fallback only with defaults
@@ -452,7 +453,13 @@ def render_items(items, rng=None):
     parts = []
     for idx, (p, s, (n, d)) in enumerate(items):
         tok = (p or "") + s
-        if rng is not None and idx > 0 and n < 0 and rng.random() < 0.5:
+        if rng is not None and d == 1 and abs(n) >= 2 and (n > 0 or idx > 0) and rng.random() < 0.3:
+            # the same unit written twice (km3/km, kg*m/s/s): the parser adds / subtracts the exponents
+            if n > 0:
+                parts.append(("*" if idx > 0 else "") + tok + render_exp((n + 1, 1)) + "/" + tok)
+            else:
+                parts.append("/" + tok + render_exp((-n - 1, 1)) + "/" + tok)
+        elif rng is not None and idx > 0 and n < 0 and rng.random() < 0.5:
             parts.append("/" + tok + render_exp((-n, d)))
         else:
             parts.append(("*" if idx > 0 else "") + tok + render_exp((n, d)))
